@@ -16,7 +16,7 @@ non-opaque types only) and which transitions are eager (keys for C16).
 """
 import itertools, json, os, sys
 
-ROOT = '/verif/mc'
+ROOT = os.path.join(os.path.dirname(os.path.dirname(os.path.abspath(__file__))), 'mc')
 NSHARD = 16
 ALPHA = 'MFXO'
 TRANS = {  # state -> kind -> (new state, eager, opaque)
@@ -289,7 +289,7 @@ edition = "2021"
 
 [dependencies]
 hcore = { path = "../../hcore" }
-orx-parallel = { path = "/verif/target/repo_va", features = ["verif-hooks"] }
+orx-parallel = { path = "../../../target/repo_va", features = ["verif-hooks"] }
 orx-concurrent-iter = "=1.30.0"
 ''' % name
 
@@ -327,8 +327,9 @@ edition = "2021"
 
 [dependencies]
 sched = { path = "../sched" }
+vatomic = { path = "../vatomic" }
 hcore = { path = "../hcore" }
-orx-parallel = { path = "/verif/target/repo_va", features = ["verif-hooks"] }
+orx-parallel = { path = "../../target/repo_va", features = ["verif-hooks"] }
 orx-concurrent-iter = "=1.30.0"
 ''' + deps + '''
 [[bin]]
